@@ -7,6 +7,6 @@ CONSTANTS
   Clients = {1,2,3,4}
   Periods = {}
   OpsVals = {}
-  RunnerTput = {0, 7, 11}
+  RunnerTput <- TraceTput
   ResetUnprocessed = TRUE
 CHECK_DEADLOCK FALSE
